@@ -10,9 +10,9 @@ package main
 
 import (
 	"fmt"
-	"math"
 	"go/constant"
 	"go/types"
+	"math"
 	"os"
 	"strings"
 
@@ -201,6 +201,31 @@ func (c *Ctx) wrOperand(st *State, op, lane, v Term) Term {
 	return bad
 }
 
+// operandMustBeVGPR: under the current assumptions the operand can only be a vector register
+// (decided by the solver, cached per operand term).
+func (c *Ctx) operandMustBeVGPR(st *State, op Term) bool {
+	key := "mustV|" + op.S
+	if v, ok := c.boolCache[key]; ok {
+		return v
+	}
+	d := c.operandDesc(st, op)
+	isV := raw("(isa.isV "+d.rt.S+")", SBool)
+	isReg := Eq(d.ot, BVLitI(c.W.instsConst("RegOperand"), 64))
+	r := !c.feasible(And(st.reach, Not(And(isReg, isV))))
+	c.boolCache[key] = r
+	return r
+}
+
+// wrOperandV: WriteOperand on an operand known to be a VGPR touches only the vector file.
+func (c *Ctx) wrOperandV(st *State, op, lane, v Term) Term {
+	c.isaPrelude()
+	d := c.operandDesc(st, op)
+	args := fmt.Sprintf("%s %s %s %s %s", d.rt.S, d.bs.S, d.rc.S, lane.S, v.S)
+	V := c.ghost(st, "G_vgpr")
+	st.mem["G_vgpr"] = c.Def("G_vgpr", raw(fmt.Sprintf("(isa.wrV %s %s)", args, V.S), sortVGPR))
+	return Or(Eq(op, TNull), Eq(d.reg, TNull), Not(raw(fmt.Sprintf("(isa.wrdefined %s %s %s)", d.rt.S, d.bs.S, d.rc.S), SBool)))
+}
+
 const emuState = "amd/emu.InstEmuState."
 
 func registerISAModels(w *World) {
@@ -238,6 +263,10 @@ func registerISAModels(w *World) {
 	w.models[emuState+"SetPC"] = setter("G_pc")
 	w.models[emuState+"SetSCC"] = setter("G_scc")
 	w.models[emuState+"ReadOperand"] = func(f *Frame, st *State, call ssa.CallInstruction, args []*Val) *Val {
+		if ls := f.topFrame().lanes; ls != nil && ls.cur != nil {
+			d := f.c.operandDesc(st, args[1].T)
+			ls.instantiate(f.c, args[2].T, BVSub(d.rt, BVLitI(f.c.W.instsConst("V0"), 64)))
+		}
 		v, bad := f.c.rdOperand(st, args[1].T, args[2].T)
 		f.panicSite(st, call.(ssa.Instruction), "operand", bad, "ReadOperand on an unsupported or nil operand")
 		return scalar(v, u64)
@@ -251,7 +280,12 @@ func registerISAModels(w *World) {
 		tag := fmt.Sprintf("wval%d", len(top.isaWrites))
 		c.assumes = append(c.assumes, Assume{declPos: len(c.decls), t: Eq(wv, args[3].T), why: "definition of the written value", tag: tag})
 		top.isaWrites = append(top.isaWrites, isaWrite{st.reach, args[1].T, args[2].T, wv})
-		bad := c.wrOperand(st, args[1].T, args[2].T, wv)
+		var bad Term
+		if c.operandMustBeVGPR(st, args[1].T) {
+			bad = c.wrOperandV(st, args[1].T, args[2].T, wv)
+		} else {
+			bad = c.wrOperand(st, args[1].T, args[2].T, wv)
+		}
 		f.panicSite(st, call.(ssa.Instruction), "operand", bad, "WriteOperand on a non-register operand or unsupported register/width")
 		return nil
 	}
@@ -266,15 +300,17 @@ func registerISAModels(w *World) {
 // ---- ISA table ----------------------------------------------------------------------------
 
 type IsaEntry struct {
-	Name   string
-	Ops    map[string]int // operand -> width in bits (D, S0, S1, S2, SDST)
-	Eff    map[string]*Expr
-	Lets   []isaLet
+	Name    string
+	Kind    map[string]string // operand -> "v": the encoding field can only name a VGPR
+	Ops     map[string]int // operand -> width in bits (D, S0, S1, S2, SDST)
+	Eff     map[string]*Expr
+	Lets    []isaLet
 	PerLane bool
-	Pre    []*Expr
-	File   string
-	Line   int
-	Ref    string
+	NoSdwa  bool
+	Pre     []*Expr
+	File    string
+	Line    int
+	Ref     string
 }
 
 type isaLet struct {
@@ -299,7 +335,7 @@ func parseIsaFile(path string) (map[string]*IsaEntry, error) {
 		}
 		fail := func(e error) error { return fmt.Errorf("%s:%d: %v", path, i+1, e) }
 		if strings.HasPrefix(t, "isa ") {
-			cur = &IsaEntry{Name: strings.TrimSpace(t[4:]), Ops: map[string]int{}, Eff: map[string]*Expr{}, File: path, Line: i + 1}
+			cur = &IsaEntry{Name: strings.TrimSpace(t[4:]), Ops: map[string]int{}, Kind: map[string]string{}, Eff: map[string]*Expr{}, File: path, Line: i + 1}
 			out[cur.Name] = cur
 			continue
 		}
@@ -313,11 +349,16 @@ func parseIsaFile(path string) (map[string]*IsaEntry, error) {
 				var w int
 				fmt.Sscanf(kv[1], "%d", &w)
 				cur.Ops[kv[0]] = w
+				if strings.HasSuffix(kv[1], "v") {
+					cur.Kind[kv[0]] = "v" // the encoding field can only name a VGPR
+				}
 			}
 		case strings.HasPrefix(t, "ref "):
 			cur.Ref = strings.TrimSpace(t[4:])
 		case strings.HasPrefix(t, "lanes"):
 			cur.PerLane = true
+		case strings.HasPrefix(t, "nosdwa"):
+			cur.NoSdwa = true
 		case strings.HasPrefix(t, "pre "):
 			e, err := parseExpr(t[4:])
 			if err != nil {
@@ -411,6 +452,9 @@ func (c *Ctx) isaRequires(st *State, e *IsaEntry) {
 		} else if !e.PerLane {
 			wf = And(wf, Implies(isReg, Not(isVr))) // SSRC fields cannot name a VGPR
 		}
+		if e.Kind[opn] == "v" {
+			wf = And(wf, isReg, isVr) // VSRC fields name a VGPR
+		}
 		// registers whose read is defined by the contract
 		regDefined := Or(raw("(isa.isV "+d.rt.S+")", SBool), raw("(isa.isS "+d.rt.S+")", SBool),
 			raw(fmt.Sprintf("(isa.wrdefined %s %s %s)", d.rt.S, d.bs.S, d.rc.S), SBool))
@@ -447,82 +491,11 @@ func isaObligations(f *Frame, rst *State, ct *Contract, post *Scope) {
 	}
 	entry := f.entry
 	inst := c.UF("G_inst", SRef)
-	used := map[string]bool{}
-	var walk func(x *Expr)
-	walk = func(x *Expr) {
-		if x == nil {
-			return
-		}
-		if x.Op == "id" {
-			used[x.Name] = true
-		}
-		for _, a := range x.Args {
-			walk(a)
-		}
-	}
-	for _, x := range e.Eff {
-		walk(x)
-	}
-	for _, l := range e.Lets {
-		walk(l.e)
-	}
-	for _, x := range e.Pre {
-		walk(x)
-	}
-	u64, u32, u8 := types.Typ[types.Uint64], types.Typ[types.Uint32], types.Typ[types.Uint8]
-	evalAt := func(lane Term) *Scope {
-		sc := &Scope{c: c, fr: nil, st: entry, old: entry, vars: map[string]*Val{}}
-		for opn, fld := range isaOperandField {
-			if !used[opn] && !(opn == "D" && used["D0"]) {
-				continue
-			}
-			op := c.instField(entry, inst, fld)
-			v, _ := c.rdOperand(entry, op, lane)
-			sc.vars[opn+"val"] = scalar(v, u64)
-		}
-		for _, n := range []string{"S0", "S1", "S2", "SIMM16"} {
-			if v, ok := sc.vars[n+"val"]; ok {
-				sc.vars[n] = v
-			}
-		}
-		if v, ok := sc.vars["Dval"]; ok {
-			sc.vars["D0"] = v
-		}
-		sc.vars["SCC"] = scalar(c.ghost(entry, "G_scc"), u8)
-		sc.vars["VCC"] = scalar(c.ghost(entry, "G_vcc"), u64)
-		sc.vars["EXEC"] = scalar(c.ghost(entry, "G_exec"), u64)
-		sc.vars["PC"] = scalar(c.ghost(entry, "G_pc"), u64)
-		sc.vars["M0"] = scalar(c.ghost(entry, "G_m0"), u32)
-		sc.vars["lane"] = scalar(lane, u64)
-		for _, l := range e.Lets {
-			sc.vars[l.name] = sc.eval(l.e)
-		}
-		return sc
-	}
-	to := func(v *Val, w int) Term {
-		t := v.T
-		if t.Sort == SBool {
-			return Ite(t, BVLitI(1, w), BVLitI(0, w))
-		}
-		if t.Sort == SInt && t.C != nil {
-			return BVLit(t.C, w)
-		}
-		_, signed, _ := intInfoOrUnsigned(v.Ty)
-		return Resize(t, w, signed)
-	}
-	guard := func(name string, fn func()) {
-		defer func() {
-			if r := recover(); r != nil {
-				if se, ok := r.(specErr); ok {
-					panic(unsupported("%s:%d: isa %s %s: %s", e.File, e.Line, e.Name, name, se.msg))
-				}
-				panic(r)
-			}
-		}()
-		fn()
-	}
+	ev := newIsaEval(c, e, entry)
+	evalAt, to, guard := ev.evalAt, isaTo, ev.guard
 	lane0 := BVLitI(0, 64)
 	var helpers []*Obligation
+	var laneDone *laneSpec
 	if !e.PerLane {
 		sc := evalAt(lane0)
 		// order of effects: destination write first, then condition codes (aliasing: D may be VCC/EXEC/SCC itself)
@@ -546,6 +519,14 @@ func isaObligations(f *Frame, rst *State, ct *Contract, post *Scope) {
 					}
 				})
 			}
+		}
+	} else if ls := f.laneSpecFor(); ls != nil && ls.done {
+		// the lane loop was summarised by an invariant (lanes.go): the prescribed state is
+		// stated per cell (skolem lane / register) and through the 64-lane masks
+		laneDone = ls
+		if e.Eff["SDSTBIT"] != nil {
+			op := c.instField(entry, inst, "SDst")
+			c.wrOperand(spec, op, lane0, ls.full("SDSTBIT"))
 		}
 	} else {
 		exec := c.ghost(entry, "G_exec")
@@ -634,8 +615,21 @@ func isaObligations(f *Frame, rst *State, ct *Contract, post *Scope) {
 			switch g {
 			case "G_sgpr": // extensional equality, skolemised: equal at an arbitrary index
 				eqs = append(eqs, Eq(Select(rst.mem[g], skS), Select(spec.mem[g], skS)))
+			case "G_vcc":
+				if laneDone != nil && e.Eff["VCCBIT"] != nil {
+					// per bit, at an arbitrary position: bit l of VCC is the prescribed bit of lane l
+					l := laneDone.skBit(c)
+					eqs = append(eqs, Implies(And(BVUlt(l, BVLitI(64, 64)), Not(laneDone.exempt(l))), Eq(BVAnd(BVLshr(rst.mem[g], l), BVLitI(1, 64)), laneDone.specBit("VCCBIT", l))))
+				} else {
+					eqs = append(eqs, Eq(rst.mem[g], spec.mem[g]))
+				}
 			case "G_vgpr":
-				eqs = append(eqs, Eq(Select(Select(rst.mem[g], skL), skS), Select(Select(spec.mem[g], skL), skS)))
+				if laneDone != nil {
+					cl, ck := laneDone.skolemCell(c)
+					eqs = append(eqs, Implies(Not(And(BVUlt(cl, BVLitI(64, 64)), laneDone.exempt(cl))), Eq(Select(Select(rst.mem[g], cl), ck), laneDone.specCell(cl, ck))))
+				} else {
+					eqs = append(eqs, Eq(Select(Select(rst.mem[g], skL), skS), Select(Select(spec.mem[g], skL), skS)))
+				}
 			default:
 				eqs = append(eqs, Eq(rst.mem[g], spec.mem[g]))
 			}
@@ -649,6 +643,9 @@ func isaObligations(f *Frame, rst *State, ct *Contract, post *Scope) {
 		o.Results = results
 		if grp.name == "regs" {
 			o.Helpers = helpers
+		}
+		if laneDone != nil {
+			o.CTI = laneDone.cti
 		}
 	}
 	// heap frame: an ALU handler must not modify Go-level memory (instruction, operands)
@@ -683,12 +680,24 @@ func isaPre(f *Frame, st *State, ct *Contract) {
 		c.Assume(TTrue, And(ILt(RefRoot(inst), IntLitI(birthBase)), ILt(IntLitI(0), RefRoot(inst))), "state.Inst() is an allocated instruction")
 	}
 	c.isaRequires(st, e)
+	if e.NoSdwa {
+		it := c.instsType("Inst").Underlying().(*types.Struct)
+		for i := 0; i < it.NumFields(); i++ {
+			if it.Field(i).Name() == "IsSdwa" {
+				c.Assume(TTrue, Not(c.load(st, RefSub(inst, i), it.Field(i).Type()).T), "plain (non-SDWA) encoding")
+			}
+		}
+	}
 	c.Assume(TTrue, BVUle(c.ghost(st, "G_scc"), BVLitI(1, 8)), "SCC holds a single bit (architectural invariant)")
 }
 
 // isaInputs names the model values that make up a counterexample: operand
 // descriptors and the scalar architectural state.
 func (f *Frame) isaInputs(entry *State, e *IsaEntry) map[string]Term {
+	return f.isaInputsAt(entry, e, BVLitI(0, 64))
+}
+
+func (f *Frame) isaInputsAt(entry *State, e *IsaEntry, lane Term) map[string]Term {
 	c := f.c
 	inst := c.UF("G_inst", SRef)
 	out := map[string]Term{"SCC": c.ghost(entry, "G_scc"), "VCC": c.ghost(entry, "G_vcc"), "EXEC": c.ghost(entry, "G_exec"),
@@ -703,7 +712,7 @@ func (f *Frame) isaInputs(entry *State, e *IsaEntry) map[string]Term {
 		out[opn+".int"] = d.intv
 		out[opn+".lit"] = d.lit
 		out[opn+".float"] = d.flt
-		v, _ := c.rdOperand(entry, op, BVLitI(0, 64))
+		v, _ := c.rdOperand(entry, op, lane)
 		out[opn+".value"] = v
 	}
 	return out
@@ -719,4 +728,120 @@ func (c *Ctx) floatOperandWF(d opDesc) Term {
 			Eq(c.UF("cvt.f64.f32", SBV(32), d.flt), BVLitU(uint64(math.Float32bits(float32(k))), 32))))
 	}
 	return Implies(isFloat, Or(alts...))
+}
+
+// isaEval evaluates ISA-table expressions against the entry state.
+type isaEval struct {
+	c     *Ctx
+	e     *IsaEntry
+	entry *State
+	inst  Term
+	used  map[string]bool
+}
+
+func newIsaEval(c *Ctx, e *IsaEntry, entry *State) *isaEval {
+	ev := &isaEval{c: c, e: e, entry: entry, inst: c.UF("G_inst", SRef), used: map[string]bool{}}
+	var walk func(x *Expr)
+	walk = func(x *Expr) {
+		if x == nil {
+			return
+		}
+		if x.Op == "id" {
+			ev.used[x.Name] = true
+		}
+		for _, a := range x.Args {
+			walk(a)
+		}
+	}
+	for _, x := range e.Eff {
+		walk(x)
+	}
+	for _, l := range e.Lets {
+		walk(l.e)
+	}
+	for _, x := range e.Pre {
+		walk(x)
+	}
+	return ev
+}
+
+func (ev *isaEval) evalAt(lane Term) *Scope {
+	c, e, entry := ev.c, ev.e, ev.entry
+	u64, u32, u8 := types.Typ[types.Uint64], types.Typ[types.Uint32], types.Typ[types.Uint8]
+	sc := &Scope{c: c, fr: nil, st: entry, old: entry, vars: map[string]*Val{}}
+	for opn, fld := range isaOperandField {
+		if !ev.used[opn] && !(opn == "D" && ev.used["D0"]) {
+			continue
+		}
+		op := c.instField(entry, ev.inst, fld)
+		v, _ := c.rdOperand(entry, op, lane)
+		sc.vars[opn+"val"] = scalar(v, u64)
+	}
+	for _, n := range []string{"S0", "S1", "S2", "SIMM16"} {
+		if v, ok := sc.vars[n+"val"]; ok {
+			sc.vars[n] = v
+		}
+	}
+	if v, ok := sc.vars["Dval"]; ok {
+		sc.vars["D0"] = v
+	}
+	sc.vars["SCC"] = scalar(c.ghost(entry, "G_scc"), u8)
+	sc.vars["VCC"] = scalar(c.ghost(entry, "G_vcc"), u64)
+	sc.vars["EXEC"] = scalar(c.ghost(entry, "G_exec"), u64)
+	sc.vars["PC"] = scalar(c.ghost(entry, "G_pc"), u64)
+	sc.vars["M0"] = scalar(c.ghost(entry, "G_m0"), u32)
+	sc.vars["lane"] = scalar(lane, u64)
+	for _, l := range e.Lets {
+		sc.vars[l.name] = sc.eval(l.e)
+	}
+	return sc
+}
+
+func isaTo(v *Val, w int) Term {
+	t := v.T
+	if t.Sort == SBool {
+		return Ite(t, BVLitI(1, w), BVLitI(0, w))
+	}
+	if t.Sort == SInt && t.C != nil {
+		return BVLit(t.C, w)
+	}
+	_, signed, _ := intInfoOrUnsigned(v.Ty)
+	return Resize(t, w, signed)
+}
+
+func (ev *isaEval) guard(name string, fn func()) {
+	e := ev.e
+	defer func() {
+		if r := recover(); r != nil {
+			if se, ok := r.(specErr); ok {
+				panic(unsupported("%s:%d: isa %s %s: %s", e.File, e.Line, e.Name, name, se.msg))
+			}
+			panic(r)
+		}
+	}()
+	fn()
+}
+
+// isaClassVars: names usable in the input-class expressions of known findings on ALU handlers.
+//   <op>neg     the operand is an inline integer constant with a negative value
+//   <op>int     ... is an inline integer constant;  <op>reg  ... is a register
+//   <op>val     the 64-bit value ReadOperand returns for lane 0 (scalar handlers)
+//   SCC VCC EXEC  architectural state before the instruction
+func isaClassVars(c *Ctx, st *State, e *IsaEntry, sc *Scope) {
+	w := c.W
+	inst := c.UF("G_inst", SRef)
+	boolT := types.Typ[types.Bool]
+	for opn := range e.Ops {
+		op := c.instField(st, inst, isaOperandField[opn])
+		d := c.operandDesc(st, op)
+		isInt := Eq(d.ot, BVLitI(w.instsConst("IntOperand"), 64))
+		sc.vars[opn+"int"] = scalar(isInt, boolT)
+		sc.vars[opn+"neg"] = scalar(And(isInt, BVSlt(d.intv, BVLitI(0, 64))), boolT)
+		sc.vars[opn+"reg"] = scalar(Eq(d.ot, BVLitI(w.instsConst("RegOperand"), 64)), boolT)
+		v, _ := c.rdOperand(st, op, BVLitI(0, 64))
+		sc.vars[opn+"val"] = scalar(v, types.Typ[types.Uint64])
+	}
+	sc.vars["SCC"] = scalar(c.ghost(st, "G_scc"), types.Typ[types.Uint8])
+	sc.vars["VCC"] = scalar(c.ghost(st, "G_vcc"), types.Typ[types.Uint64])
+	sc.vars["EXEC"] = scalar(c.ghost(st, "G_exec"), types.Typ[types.Uint64])
 }
